@@ -175,23 +175,25 @@ Transient(a, r, v, ov) ==
 \* `lid` = the incarnation id the real handle shows (small integers in order of first appearance
 \* in the history), `s` = the settings it shows.  Same abstract incarnation <=> same real id; the
 \* settings are exactly those the incarnation was created with.
-RetDone(t, a, r, lid, s, v, h) ==
+RetDoneGuard(t, a, r, lid, s, v, h) ==
     LET p == pend[t]
         handle == r = "Ok" /\ a \in {"create", "open", "ooc"}
     IN  /\ p.st = "done" /\ p.a = a /\ p.r = r /\ p.h = h
         /\ a \in {"exist", "list"} => p.v = v
-        /\ IF handle
-           THEN /\ s = NewS(p.sc)
-                /\ svc.ex /\ p.id = svc.id
-                /\ IF svc.lid = 0
-                   THEN /\ lid = gh.seen + 1            \* a real id never seen before
-                        /\ svc' = [svc EXCEPT !.lid = lid]
-                        /\ gh' = [gh EXCEPT !.seen = lid]
-                   ELSE /\ lid = svc.lid
-                        /\ UNCHANGED <<svc, gh>>
-           ELSE UNCHANGED <<svc, gh>>
-        /\ pend' = [pend EXCEPT ![t] = IdleRec]
-        /\ UNCHANGED ek
+        /\ handle => /\ s = NewS(p.sc)
+                      /\ svc.ex /\ p.id = svc.id
+                      /\ IF svc.lid = 0 THEN lid = gh.seen + 1      \* a real id never seen before
+                                        ELSE lid = svc.lid
+
+RetDone(t, a, r, lid, s, v, h) ==
+    LET handle == r = "Ok" /\ a \in {"create", "open", "ooc"} IN
+    /\ RetDoneGuard(t, a, r, lid, s, v, h)
+    /\ IF handle /\ svc.lid = 0
+       THEN /\ svc' = [svc EXCEPT !.lid = lid]
+            /\ gh' = [gh EXCEPT !.seen = lid]
+       ELSE UNCHANGED <<svc, gh>>
+    /\ pend' = [pend EXCEPT ![t] = IdleRec]
+    /\ UNCHANGED ek
 
 RetTransient(t, a, r, v) ==
     /\ pend[t].st = "called" /\ pend[t].a = a
